@@ -109,11 +109,19 @@ func RoundRobin(enabled []int, current int) int {
 // Now replaces time.Now in instrumented files: the real clock plus the virtual time that has
 // passed in the controlled run in progress.
 func Now() time.Time {
+	g := time.Duration(globalOffset.Load())
 	if r := active.Load(); r != nil {
-		return time.Now().Add(r.voffset)
+		return time.Now().Add(g + r.voffset)
 	}
-	return time.Now()
+	return time.Now().Add(g)
 }
+
+// globalOffset is virtual time that has passed outside controlled runs (explicit-state
+// explorations of instrumented code use it as their "time passes" operation).
+var globalOffset atomic.Int64
+
+// AdvanceGlobal lets d of virtual time pass for all instrumented code of the process.
+func AdvanceGlobal(d time.Duration) { globalOffset.Add(int64(d)) }
 
 // Advance lets virtual time pass in the controlled run in progress (a handler that takes long);
 // outside a run it does nothing.
